@@ -207,6 +207,8 @@ def sampler_scenarios(seed, per_group, faults="none"):
                 sc["delays"] = [[rnd.randrange(chains), rnd.choice([100, 400])]]
             if rnd.random() < 0.5:
                 sc["cb_rate_us"] = rnd.choice([50, 300, 2000, 100000])
+            if rnd.random() < 0.35:
+                sc["const_init"] = True      # all chains start at the same point: only their streams tell them apart
             if faults == "none":
                 sc["script"] = user_script(rnd)
             elif faults == "density":
@@ -231,6 +233,19 @@ def sampler_scenarios(seed, per_group, faults="none"):
                 if sc["script"] and sc["script"][-1]["op"] == "abort" and len(sc["script"]) >= 7:
                     pass
             out.append(sc)
+    if faults == "none":
+        # one run per preset in which all chains start from the same point on a benign target: only the chains' own random
+        # streams can make their draws differ (C10, last sentence)
+        for preset in ["diag_nuts", "lowrank_nuts", "diag_mclmc"]:
+            st = {"num_tune": 6, "num_draws": 6, "num_chains": 2, "seed": rnd.randrange(1 << 30)}
+            if "nuts" in preset:
+                st["maxdepth"] = 4
+            else:
+                st["step_size"] = 0.5
+                st["momentum_decoherence_length"] = 1.0
+            out.append({"preset": preset, "dim": 3, "density": DENS[0], "settings": st, "num_cores": 2,
+                        "sched_seed": rnd.randrange(1 << 30), "sched_amp_us": 50, "group": [2, 2, 12], "const_init": True,
+                        "script": [{"op": "wait", "ms": 4000}] * 6 + [{"op": "abort"}]})
     if faults == "failures":
         # an unrecoverable error at every evaluation of a short warm-up that crosses the first transformation
         # change (so that it also lands in the re-run of the step-size search): the run must report it
